@@ -1,7 +1,7 @@
 // vh_report: run the real report generators of solstat on findings maps read from stdin.
 //
 // Protocol (line oriented, names hex-encoded UTF-8):
-//   case <opt|vul|qa|all|allfile> [<dir for allfile>]
+//   case <opt|vul|qa|all|allfile|allfilestale> [<dir for allfile>]   (allfilestale: a long stale report exists before the run)
 //   pat <opt|vul|qa> <VariantName>          patterns in HashMap insertion order
 //   file x<hexname> <i32> <i32> ...         appended to the vector of the last `pat` (the token is `x` for the empty name)
 //   end
@@ -130,13 +130,35 @@ fn run_case(c: &Case) -> Option<String> {
             }
             s
         }
-        "allfile" => {
+        "allfile" | "allfilestale" => {
             if !dir.starts_with("/verif/.cache/") {
                 panic!("allfile: directory must be under /verif/.cache");
             }
             std::fs::create_dir_all(&dir).expect("mkdir");
             let old = std::env::current_dir().expect("cwd");
             std::env::set_current_dir(&dir).expect("chdir");
+            if mode == "allfilestale" {
+                // an earlier run with many findings for every pattern has left its (much longer) report behind:
+                // it must be replaced as a whole
+                let mut v0 = HashMap::new();
+                let mut o0 = HashMap::new();
+                let mut q0 = HashMap::new();
+                let entries = |tag: &str| -> Entries {
+                    (0..60)
+                        .map(|i| (format!("Earlier{}{}.sol", tag, i), (1..(3 + i % 5)).map(|x| x as i32 * 7 + i as i32).collect()))
+                        .collect()
+                };
+                for p in get_all_vulnerabilities() {
+                    v0.insert(p, entries("V"));
+                }
+                for p in get_all_optimizations() {
+                    o0.insert(p, entries("O"));
+                }
+                for p in get_all_qa() {
+                    q0.insert(p, entries("Q"));
+                }
+                generate_report(v0, o0, q0);
+            }
             let r = catch_unwind(AssertUnwindSafe(|| generate_report(v, o, q)));
             let text = std::fs::read_to_string("solstat_report.md");
             let _ = std::fs::remove_file("solstat_report.md");
